@@ -37,6 +37,11 @@ def c16_main(tier, only=None):
         rng = random.Random(SEED); hists = [h for h in hists if len(h) <= 2] + rng.sample([h for h in hists if len(h) == 3], 60)
     else:
         rng = random.Random(SEED); hists += rng.sample(list(itertools.product(ops, repeat=4)), 300)
+    # same-name nesting with another attribute added while the inner scope is open (scope end must remove exactly its own entry)
+    for h in itertools.product(ops, repeat=4):
+        if 4 in h and 5 in h and h.index(4) < len(h) - 1 - h[::-1].index(5) and any(x in (7, 1, 2) for x in h[h.index(4) + 1:len(h) - 1 - h[::-1].index(5)]) and any(x in (1, 2, 4) for x in h[:h.index(4)] + h[h.index(4) + 1:]):
+            if h not in hists:
+                hists.append(h)
     for h in hists:
         if h.count(5) > h.count(4):
             continue
